@@ -126,6 +126,13 @@ func checkC09(c *Ctx, r *Report) {
 	r.Undecidedcl = []string{"utf8.DecodeRuneInString itself (trusted contract: returns (RuneError,1) exactly for invalid encodings, otherwise a valid rune of `size` bytes)"}
 	r.Assumptions = []string{"unicode/utf8.DecodeRuneInString contract", "bytes.Buffer writes append exactly the given bytes"}
 	ro := c.roles(r)
+	{
+		jok, tok := c.checkLayoutSemantics(r, ro, "C09.layout-values")
+		layoutDecisions(r, jok, tok)
+		if c.checkEscaperSemantics(r, ro, "C09.escape-values", r.Tier == "thorough") && jok && tok {
+			r.Decide([]string{"C09."}, nil, "escaping evaluated through both encoders' AppendString/AppendKey and through both layouts")
+		}
+	}
 	all, mainF, ascii, errh := c.escaperFuncs(ro)
 	r.Floor("escaper functions", len(all), 2)
 	if mainF == nil || ascii == nil {
